@@ -856,6 +856,58 @@ def rule_maxcount(ctx):
             r.ok(keyC, a.loc, "add keeps max(old maximum, x)")
         else:
             r.violation(keyC, a.loc, "add does not set the maximum to max(old maximum, x)")
+    # (sensitivity map) (C) which branch a discard takes is decided by the count: the deleting branch (and with it
+    # the maximum update) exactly for the last copy, the decrementing branch — by one — otherwise.  The test is
+    # partially evaluated for counts 1, 2, 3.
+    keyD = ctx.key(f, "C04-MAXCOUNT", "last-copy-test")
+    cntn = None
+    for n in walk_local(f.node):
+        if isinstance(n, ast.Assign) and isinstance(n.targets[0], ast.Name) and isinstance(n.value, ast.Subscript) \
+                and is_c(n.value.value):
+            cntn = n.targets[0].id
+    split = None
+    for n in walk_local(f.node):
+        if isinstance(n, ast.If) and cntn and cntn in {y.id for y in ast.walk(n.test) if isinstance(y, ast.Name)}:
+            def deletes(body):
+                return any(isinstance(st_, ast.Delete) and any(isinstance(t_, ast.Subscript) and is_c(t_.value) for t_ in st_.targets)
+                           or (isinstance(st_, ast.Expr) and isinstance(st_.value, ast.Call) and isinstance(st_.value.func, ast.Attribute)
+                               and st_.value.func.attr == "pop" and is_c(st_.value.func.value)) for st_ in body)
+            if deletes(n.body) or deletes(n.orelse):
+                split = (n, deletes(n.body))
+    if cntn is None or split is None:
+        r.exempt(keyD, f.loc, "discard does not separate 'last copy' from 'one of several' by a test on the count: not decided")
+    else:
+        n, del_in_body = split
+        t = n.test
+        ok_ = isinstance(t, ast.Compare) and len(t.ops) == 1 and isinstance(t.left, ast.Name) and t.left.id == cntn \
+            and isinstance(t.comparators[0], ast.Constant)
+        verdicts = {}
+        if ok_:
+            c0 = t.comparators[0].value
+            fn_ = {ast.LtE: lambda a_: a_ <= c0, ast.Lt: lambda a_: a_ < c0, ast.Eq: lambda a_: a_ == c0, ast.Gt: lambda a_: a_ > c0,
+                   ast.GtE: lambda a_: a_ >= c0, ast.NotEq: lambda a_: a_ != c0}.get(type(t.ops[0]))
+            for cv in (1, 2, 3):
+                verdicts[cv] = (fn_(cv) == del_in_body) if fn_ else None
+        dec_body = n.orelse if del_in_body else n.body
+        dec = [st_ for st_ in dec_body if (isinstance(st_, ast.Assign) and isinstance(st_.targets[0], ast.Subscript) and is_c(st_.targets[0].value)
+                                          and C.unparse(st_.value).replace(" ", "") == f"{cntn}-1")
+               or (isinstance(st_, ast.AugAssign) and isinstance(st_.target, ast.Subscript) and is_c(st_.target.value)
+                   and isinstance(st_.op, ast.Sub) and C.unparse(st_.value) == "1")]
+        probs = []
+        if not ok_:
+            probs.append(f"the test `{C.unparse(t, 40)}` is not a comparison of the count with a constant")
+        else:
+            if verdicts.get(1) is not True:
+                probs.append("the last copy (count 1) does not take the deleting branch: the entry stays with count 0 and the "
+                             "maximum is never recomputed")
+            if verdicts.get(2) is not False or verdicts.get(3) is not False:
+                probs.append("an element held several times takes the deleting branch: all its copies vanish at once")
+        if not dec:
+            probs.append("the other branch does not decrement the count by one")
+        if probs:
+            r.violation(keyD, C.loc(f, n), "; ".join(probs))
+        else:
+            r.ok(keyD, C.loc(f, n), "count 1 -> delete (+ maximum update), count > 1 -> decrement by one")
     return r
 
 
